@@ -464,6 +464,10 @@ class Sim:
         self.ev("status", state=state.name)
         if self.status_cb_mode == "raise":
             raise RuntimeError("status callback failure (injected)")
+        if self.status_cb_mode == "raise_on_disconnected" and state.name == "DISCONNECTED":
+            raise RuntimeError("status callback failure for one state only (injected)")
+        if self.status_cb_mode == "raise_on_connected" and state.name == "CONNECTED" and self.status.count("CONNECTED") % 2 == 1:
+            raise RuntimeError("status callback failure for every other CONNECTED (injected)")
         if self.status_cb_mode == "slow":
             await asyncio.sleep(0.05)
         if self.status_cb_mode == "slow_connected" and state.name == "CONNECTED":
